@@ -8,5 +8,6 @@ CONSTANTS
  MaxC = 0
  MaxB = 2
  WChunks = {1, 2, 5, 6, 7, 8, 13, 14, 21}
+ Tmo = FALSE
 INVARIANTS TypeOK Conserved WriteIsPrefix OneRecordWithheld CutDeliversAll NeverZeroNil BufBound
 CHECK_DEADLOCK FALSE
